@@ -18,17 +18,14 @@
 (* demands (refinement of a one-step contract), at token level and at file *)
 (* level (every sub-range read).                                           *)
 (* The models follow the code as of /repo commits d02d736 (Go firstBlock = *)
-(* sort.Search lower bound), b303e5c (Python first_block likewise) and     *)
-(* bc06505 (EscapeName escapes the backslash); the defects those commits   *)
-(* repaired (KF-C10-1a/1b/1c, KF-C10-2) are kept as HISTORY operators with *)
-(* checkable lemmas.  One named exclusion remains, where the faithful      *)
-(* model still contains a genuine defect of the code (DESIGN.md 3, pt 2):  *)
-(*   KF_C10_3  ZSeg(s,t): an EMPTY token positioned strictly inside a      *)
-(*             block.  GoFs: loadManifest appends a zero-length            *)
-(*             storedSegment, and a positioned read (Seek+Read) that lands *)
-(*             on it returns io.EOF.                                       *)
-(* The excluded case stays in the generator; RUN + JUDGE re-confirm on     *)
-(* every run whether the code still has it.                                *)
+(* sort.Search lower bound), b303e5c (Python first_block likewise),        *)
+(* bc06505 (EscapeName escapes the backslash), 64bfb12 (loadManifest       *)
+(* creates no zero-length segment) and 6bfe9ac (manifestEscape also        *)
+(* escapes DEL and invalid UTF-8).  The defects those commits repaired     *)
+(* (KF-C10-1a/1b/1c, KF-C10-2, KF-C10-3) are kept as HISTORY operators     *)
+(* with checkable lemmas; no invariant has an exclusion any more.          *)
+(* (KF-C10-4, the lenient stream name of loadManifest, concerns malformed  *)
+(* text and lives in ManifestContract!MustReject, not in these models.)    *)
 (***************************************************************************)
 EXTENDS Manifest, TLC, Json, IOUtils
 
@@ -69,7 +66,9 @@ StreamsOne  == {S_root}
 StreamsAll  == {S_root, S_d, S_dsp, S_deep}
 StreamsTwo  == {S_root, S_d}
 PlainAll    == {Unescape(t) : t \in NamesAll \cup StreamsAll} \cup
-               { <<97, 9, 98>>, <<97, 10, 98>>, <<BS>>, <<BS, 52, 48, 48>>, <<97, BS, 48, 52, 48>>, <<255, 0, 1>> }
+               { <<97, 9, 98>>, <<97, 10, 98>>, <<BS>>, <<BS, 52, 48, 48>>, <<97, BS, 48, 52, 48>>, <<255, 0, 1>>,
+                 <<97, 127>>, <<233>>, <<195>>, <<226, 130, 172>>, <<226, 130>>, <<237, 160, 128>>, <<240, 159, 152, 128>>,
+                 <<BS, BS>>, <<192, 128>> }
 Ids012      == {0, 1, 2}
 Ids0123     == {0, 1, 2, 3}
 Ids1        == {1}
@@ -82,29 +81,32 @@ vars == <<sc>>
 (* dirnode.loadManifest, per stream (fs_collection.go:1027-1148)           *)
 (***************************************************************************)
 \* the "for ; segIdx < len(segments); segIdx++" loop for one file token; segIdx is 1-based here
-RECURSIVE GoFsLoop(_, _, _, _, _, _)
-GoFsLoop(blocks, segIdx, pos, offset, length, acc) ==
+\* keepZero = FALSE: the code since 64bfb12 ("if blkLen > 0"); TRUE: HISTORY, the loader before it (KF-C10-3, fixed)
+RECURSIVE GoFsLoop(_, _, _, _, _, _, _)
+GoFsLoop(blocks, segIdx, pos, offset, length, acc, keepZero) ==
     IF segIdx > Len(blocks) THEN [segIdx |-> segIdx, pos |-> pos, segs |-> acc]
     ELSE LET sz   == Size(blocks[segIdx])
              next == pos + sz
          IN IF next <= offset \/ sz = 0
-            THEN GoFsLoop(blocks, segIdx + 1, next, offset, length, acc)            \* pos = next; continue
+            THEN GoFsLoop(blocks, segIdx + 1, next, offset, length, acc, keepZero)  \* pos = next; continue
             ELSE IF pos >= offset + length
             THEN [segIdx |-> segIdx, pos |-> pos, segs |-> acc]                    \* break
             ELSE LET blkOff  == IF pos < offset THEN offset - pos ELSE 0
                      blkLen0 == sz - blkOff
                      blkLen  == IF pos + blkOff + blkLen0 > offset + length
                                 THEN offset + length - pos - blkOff ELSE blkLen0
-                     acc2    == Append(acc, <<blocks[segIdx], blkOff, blkLen>>)     \* appendSegment
+                     acc2    == IF blkLen > 0 \/ keepZero                            \* "if blkLen > 0 {"
+                                THEN Append(acc, <<blocks[segIdx], blkOff, blkLen>>)  \*    appendSegment
+                                ELSE acc
                  IN IF next > offset + length
                     THEN [segIdx |-> segIdx, pos |-> pos, segs |-> acc2]            \* break
-                    ELSE GoFsLoop(blocks, segIdx + 1, next, offset, length, acc2)   \* pos = next
+                    ELSE GoFsLoop(blocks, segIdx + 1, next, offset, length, acc2, keepZero)   \* pos = next
 
 \* all tokens of a stream, carrying (segIdx, pos); result: sequence of [segs, err] per token
-GoFsStream(s) ==
+GoFsStreamK(s, keepZero) ==
     LET step(st, t) ==
             LET rew == IF st.pos > t.pos THEN [segIdx |-> 1, pos |-> 0] ELSE st      \* "Can't continue where we left off"
-                r   == GoFsLoop(s.blocks, rew.segIdx, rew.pos, t.pos, t.len, <<>>)
+                r   == GoFsLoop(s.blocks, rew.segIdx, rew.pos, t.pos, t.len, <<>>, keepZero)
             IN [segIdx |-> r.segIdx, pos |-> r.pos,
                 out |-> Append(st.out, [segs |-> r.segs,
                                         err |-> r.segIdx = Len(s.blocks) + 1 /\ r.pos < t.pos + t.len])]
@@ -112,11 +114,13 @@ GoFsStream(s) ==
                                      ELSE step(F[k-1], s.toks[k])
     IN F[Len(s.toks)].out
 
-\* filenode.segments after loadManifest for the file called f (zero-length storedSegments are kept)
-GoFsFile(s, f) == LET r == GoFsStream(s)
+GoFsStream(s) == GoFsStreamK(s, FALSE)
+\* filenode.segments after loadManifest for the file called f
+GoFsFileK(s, f, keepZero) == LET r == GoFsStreamK(s, keepZero)
                       F[k \in 0 .. Len(s.toks)] ==
                           IF k = 0 THEN <<>> ELSE F[k-1] \o (IF s.toks[k].name = f THEN r[k].segs ELSE <<>>)
                   IN F[Len(s.toks)]
+GoFsFile(s, f) == GoFsFileK(s, f, FALSE)
 \* filenode.seek after filehandle.Seek (ptr.repacked = -1: recompute from the start), then filenode.Read of
 \* one byte: the result is the byte (<<block, offset>>) or EOF
 RECURSIVE GoFsSeek(_, _, _, _)
@@ -223,8 +227,27 @@ MapBytes(n, f(_)) == LET F[i \in 0 .. Len(n)] == IF i = 0 THEN <<>> ELSE F[i-1] 
 
 GoManEscape(n) == LET f(c) == IF c <= 32 \/ c = BS THEN Oct3(c) ELSE <<c>> IN MapBytes(n, f)     \* EscapeName (since bc06505)
 OldGoManEscape(n) == LET f(c) == IF c <= 32 THEN Oct3(c) ELSE <<c>> IN MapBytes(n, f)           \* HISTORY: before bc06505 (KF-C10-2, fixed)
-GoFsEscape(n)  == LET f(c) == IF c <= 32 \/ c = COLON \/ c = BS THEN Oct3(c) ELSE <<c>>          \* manifestEscape
-                  IN MapBytes(n, f)
+\* manifestEscape (since 6bfe9ac): control codes and space, DEL, ':' and '\', and every byte that is not part of
+\* a valid UTF-8 sequence (utf8.DecodeRuneInString returns RuneError, 1) are written as \ooo
+Cont(c) == c >= 128 /\ c <= 191
+Utf8Len(n, i) ==                                   \* length of the valid UTF-8 sequence starting at n[i], 0 if none
+    LET c == n[i]
+        at(k) == IF i + k <= Len(n) THEN n[i + k] ELSE 0
+    IN IF c < 128 THEN 1
+       ELSE IF c >= 194 /\ c <= 223 /\ Cont(at(1)) THEN 2
+       ELSE IF c >= 224 /\ c <= 239 /\ Cont(at(1)) /\ Cont(at(2))
+               /\ (c = 224 => at(1) >= 160) /\ (c = 237 => at(1) <= 159) THEN 3
+       ELSE IF c >= 240 /\ c <= 244 /\ Cont(at(1)) /\ Cont(at(2)) /\ Cont(at(3))
+               /\ (c = 240 => at(1) >= 144) /\ (c = 244 => at(1) <= 143) THEN 4
+       ELSE 0
+RECURSIVE GoFsEscFrom(_, _)
+GoFsEscFrom(n, i) ==
+    IF i > Len(n) THEN <<>>
+    ELSE LET c == n[i]  sz == Utf8Len(n, i)
+         IN IF c <= 32 \/ c = 127 \/ c = COLON \/ c = BS \/ sz = 0
+            THEN Oct3(c) \o GoFsEscFrom(n, i + 1)
+            ELSE SubSeq(n, i, i + sz - 1) \o GoFsEscFrom(n, i + sz)
+GoFsEscape(n)  == GoFsEscFrom(n, 1)
 PyEscape(n)    == LET f1(c) == IF c = BS THEN Oct3(BS) ELSE <<c>>                                \* escape(): two passes
                       f2(c) == IF c <= 32 \/ c = COLON THEN Oct3(c) ELSE <<c>>
                   IN MapBytes(MapBytes(n, f1), f2)
@@ -254,10 +277,10 @@ PyUnescFrom(t, i) ==
 PyUnescape(t) == PyUnescFrom(t, 1)
 
 (***************************************************************************)
-(* Named exclusions = the known-finding classes.  Only ZSeg (KF_C10_3) is  *)
-(* still an exclusion; ZStart, ZSpan and BsOct describe defects that are   *)
-(* fixed in the code and in this model and only serve OldSearchWasWrong /  *)
-(* OldEscapeWasWrong and the labelling done by checks/C10.py.              *)
+(* The former known-finding classes.  None is an exclusion any more: the   *)
+(* defects they describe are fixed in the code and in this model; they     *)
+(* serve OldSearchWasWrong / OldEscapeWasWrong / OldLoaderWasWrong and the  *)
+(* labelling done by checks/C10.py.                                        *)
 (***************************************************************************)
 ZStart(s, t) == /\ t.len > 0
                 /\ \E i \in DOMAIN s.blocks : /\ Size(s.blocks[i]) = 0
@@ -268,8 +291,8 @@ ZStart(s, t) == /\ t.len > 0
 ZSpan(s, t) == \E i \in DOMAIN s.blocks : /\ Size(s.blocks[i]) = 0
                                            /\ t.pos < BlockStart(s.blocks, i)
                                            /\ BlockStart(s.blocks, i) < t.pos + t.len
-\* KF_C10_3: an empty token positioned strictly inside a block: loadManifest appends a zero-length
-\* storedSegment, at which a positioned read (Seek + Read) stops with io.EOF
+\* KF_C10_3 (fixed by 64bfb12): an empty token positioned strictly inside a block: loadManifest appended a
+\* zero-length storedSegment, at which a positioned read (Seek + Read) stopped with io.EOF
 ZSeg(s, t) == /\ t.len = 0
               /\ \E i \in DOMAIN s.blocks : /\ BlockStart(s.blocks, i) < t.pos
                                             /\ t.pos < BlockStart(s.blocks, i) + Size(s.blocks[i])
@@ -349,12 +372,16 @@ GoFsReadRefines == \A i \in DOMAIN sc.streams :
     IN \A f \in FileNamesOf(s) :
          LET want == WantBytes(s, f)
              file == GoFsFile(s, f)
-             kf   == \E k \in DOMAIN s.toks : s.toks[k].name = f /\ ZSeg(s, s.toks[k])
-         IN kf \/ \A o \in 0 .. Len(want) - 1 : GoFsReadByte(file, Len(want), o) = want[o + 1]
+         IN /\ \A j \in DOMAIN file : file[j][3] > 0                 \* "filenode.seek/Read assume none exist"
+            /\ \A o \in 0 .. Len(want) - 1 : GoFsReadByte(file, Len(want), o) = want[o + 1]
 
 \* all unescapers read the generator's names the way the format does
 UnescapersAgree == \A t \in FileNames \cup StreamNames :
     /\ GoManUnescape(t) = Unescape(t) /\ GoFsUnescape(t) = Unescape(t) /\ PyUnescape(t) = Unescape(t)
+
+\* what manifestEscape writes may stand in a manifest: no blanks, no control codes, valid UTF-8
+GoFsEscapeClean == \A n \in PlainNames :
+    LET e == GoFsEscape(n) IN RawOK(e) /\ \A i \in DOMAIN e : e[i] < 128 \/ Utf8Len(e, i) > 0 \/ Cont(e[i])
 
 \* escapers round-trip (through the format's reading AND through the codec's own unescaper)
 EscapersRoundTrip == \A n \in PlainNames :
@@ -374,6 +401,17 @@ SomeOldSearchFailure == \E i \in DOMAIN sc.streams : \E k \in DOMAIN sc.streams[
     LET s == sc.streams[i]  t == s.toks[k]
     IN t.len > 0 /\ OldFirstBlock(Offsets(s.blocks), Len(s.blocks), t.pos) = -1
 OldEscapeWasWrong == \A n \in PlainNames : (Unescape(OldGoManEscape(n)) # n) <=> BsOct(n)
+\* ... and the old loader (zero-length segments kept) misread a file only when one of its tokens is in ZSeg
+OldLoaderWasWrong == \A i \in DOMAIN sc.streams :
+    LET s == sc.streams[i]
+    IN \A f \in FileNamesOf(s) :
+         LET want == WantBytes(s, f)
+             old  == GoFsFileK(s, f, TRUE)
+         IN (\E o \in 0 .. Len(want) - 1 : GoFsReadByte(old, Len(want), o) # want[o + 1])
+               => \E k \in DOMAIN s.toks : s.toks[k].name = f /\ ZSeg(s, s.toks[k])
+SomeOldLoaderFailure == \E i \in DOMAIN sc.streams : \E f \in FileNamesOf(sc.streams[i]) :
+    LET s == sc.streams[i]  want == WantBytes(s, f)
+    IN \E o \in 0 .. Len(want) - 1 : GoFsReadByte(GoFsFileK(s, f, TRUE), Len(want), o) # want[o + 1]
 
 \* The one place where the codecs disagree and the format document decides nothing (see ManifestContract,
 \* "silent"): two consecutive backslashes in manifest text.  Recorded so that a change of either reading shows.
